@@ -566,6 +566,13 @@ class BlockMessageMethodSetByteItem(BlockMessageMethodGetSetByteItemBase):
             # Cast to signed-int if overflows
             # Python dosen't have a type for int8, int16..
             caster = "bp.int{}".format(self.formatter.get_nbits_of_integer(single))
+        if isinstance(single, Enum):
+            # A byte chunk of an enum value (and the value accumulated so far) isn't
+            # necessarily an enum member itself: accumulate plain integers, and
+            # for an enum field do so on its integer proxy.
+            type_name = "int"
+            if self.array_depth == 0:
+                left = f"self.{_enum_field_proxy_prefix}{self.message_field_name}"
 
         right = value = f"{type_name}(b)"
 
